@@ -28,8 +28,21 @@ StView == st
 Contents == {"c1", "c2"}
 
 Acts(S) ==
-  LET newgrp == {[a |-> "NewGrp", s |-> s, t |-> t, mode |-> <<"-">>, chan |-> FALSE] : s \in {SessOrder[1]}, t \in {x \in Topics : ~S.topics[x].exists}}
-      live == {t \in Topics : S.topics[t].exists}
+  LET newgrp == {[a |-> "NewGrp", s |-> s, t |-> t, mode |-> <<"-">>, chan |-> FALSE] : s \in {SessOrder[1]}, t \in {x \in GrpTopics : ~S.topics[x].exists}}
+      live == {t \in GrpTopics : S.topics[t].exists}
+      \* p2p topics and on-behalf-of requests are not tracked by the model: their requests are drawn blindly
+      pt == Topics \ GrpTopics
+      p2p == {[a |-> "Sub", s |-> s, t |-> t, mode |-> m, chan |-> FALSE, bg |-> FALSE] : s \in Sessions, t \in pt, m \in {<<"-">>, <<"J","R","W","P","A","S","D">>, <<"J","R">>, <<"N">>}}
+             \cup {[a |-> "Leave", s |-> s, t |-> t, unsub |-> b, chan |-> FALSE] : s \in Sessions, t \in pt, b \in BOOLEAN}
+             \cup {[a |-> "Pub", s |-> s, t |-> t, c |-> "c1", noecho |-> FALSE, chan |-> FALSE] : s \in Sessions, t \in pt}
+             \cup {[a |-> "Note", s |-> s, t |-> t, what |-> w, seq |-> n, chan |-> FALSE] : s \in Sessions, t \in pt, w \in {"read", "recv"}, n \in 1..3}
+             \cup {[a |-> "SetSelf", s |-> s, t |-> t, mode |-> m, chan |-> FALSE] : s \in Sessions, t \in pt, m \in {<<"J","R","W","P","A","S">>, <<"J","W","P">>, <<"N">>}}
+             \cup {[a |-> "SetOther", s |-> s, t |-> t, u |-> u, mode |-> m, chan |-> FALSE] : s \in Sessions, t \in pt, u \in Users, m \in {<<"J","R","W","P","A","S","D","O">>, <<"N">>}}
+             \cup {[a |-> "DelTopic", s |-> s, t |-> t, hard |-> TRUE, chan |-> FALSE] : s \in Sessions, t \in pt}
+             \cup {[a |-> "Unload", t |-> t] : t \in pt} \cup {[a |-> "Reload", t |-> t] : t \in pt}
+      obo == {[a |-> "Sub", s |-> s, t |-> t, mode |-> <<"-">>, chan |-> FALSE, bg |-> FALSE, obo |-> u] : s \in RootSessions, t \in live, u \in Users}
+             \cup {[a |-> "Pub", s |-> s, t |-> t, c |-> "c1", noecho |-> FALSE, chan |-> FALSE, obo |-> u] : s \in RootSessions, t \in live, u \in Users}
+             \cup {[a |-> "Leave", s |-> s, t |-> t, unsub |-> FALSE, chan |-> FALSE, obo |-> u] : s \in RootSessions, t \in live, u \in Users}
       sub == {[a |-> "Sub", s |-> s, t |-> t, mode |-> m, chan |-> FALSE, bg |-> FALSE] : s \in Sessions, t \in live, m \in WantModes}
       leave == {[a |-> "Leave", s |-> s, t |-> t, unsub |-> b, chan |-> FALSE] : s \in Sessions, t \in live, b \in BOOLEAN}
       setself == {[a |-> "SetSelf", s |-> s, t |-> t, mode |-> m, chan |-> FALSE] : s \in Sessions, t \in live, m \in WantModes \ {<<"-">>}}
@@ -59,6 +72,7 @@ Acts(S) ==
      \cup (IF "SetOther" \in Kinds THEN { x \in setother : x.t \in M(S.sess[x.s].subs) /\ x.u # SessUser[x.s]} ELSE {})
      \cup (IF "DelSub" \in Kinds THEN delsub ELSE {}) \cup (IF "Pub" \in Kinds THEN pub ELSE {})
      \cup (IF "Note" \in Kinds THEN note ELSE {})
+     \cup (IF "P2P" \in Kinds THEN p2p ELSE {}) \cup (IF "Obo" \in Kinds THEN obo ELSE {})
      \* requests that need attachment are drawn for attached sessions (plus one detached representative: the refusal path)
      \cup (IF "DelMsg" \in Kinds THEN {x \in delmsg : x.t \in M(S.sess[x.s].subs) \/ (x.s = SessOrder[Len(SessOrder)] /\ x.ranges = << <<1, 0>> >>)} ELSE {})
      \cup (IF "GetData" \in Kinds THEN {x \in getdata : x.t \in M(S.sess[x.s].subs) \/ (x.s = SessOrder[Len(SessOrder)] /\ x.since = 0 /\ x.before = 0 /\ x.limit = 0)} ELSE {})
@@ -69,17 +83,20 @@ ObsOf(S, a, r) ==
   LET isPub == a.a = "Pub" /\ r.out.code = 202 IN
   [code |-> r.out.code,
    nack |-> IF a.a \in {"Note", "Unload", "Reload"} THEN 0 ELSE 1,
-   data |-> IF isPub THEN {[s |-> x, seq |-> r.out.seq, from |-> SessUser[a.s], content |-> a.c] : x \in r.out.dataTo} ELSE {},
+   data |-> IF isPub THEN {[s |-> x, seq |-> r.out.seq, from |-> SessUser[a.s], content |-> a.c, topic |-> a.t] : x \in r.out.dataTo} ELSE {},
    ndata |-> [x \in Sessions |-> IF isPub /\ x \in r.out.dataTo THEN 1 ELSE 0],
    push |-> IF isPub THEN {r.out.pushTo} ELSE {},
    ackSeq |-> IF isPub THEN r.out.seq ELSE 0,
    ackDel |-> IF a.a = "DelMsg" /\ r.out.code = 200 THEN r.out.seq ELSE 0,
    delmeta |-> {},
-   afterCrash |-> FALSE]
+   afterCrash |-> FALSE,
+   acs |-> {}]
 
 \* simulation: first draw the KIND of request uniformly among the kinds that have an enabled instance, then the instance
 \* (otherwise kinds with large argument alphabets crowd out publishes and subscriptions)
-KindOf(a) == IF a.a = "Get" THEN "Get" \o a.what ELSE a.a
+KindOf(a) == IF a.a = "Get" THEN "Get" \o a.what
+             ELSE IF "obo" \in DOMAIN a THEN "obo" \o a.a
+             ELSE IF "t" \in DOMAIN a /\ a.t \notin GrpTopics THEN "p2p" \o a.a ELSE a.a
 RandomAct(S) ==
   LET acts == Acts(S)
       k == RandomElement({KindOf(a) : a \in acts})
